@@ -149,6 +149,10 @@ PLAN = {
              dict(sb='SB_Chain2', rb='RB_Two')),
             ('watch d6 push', 'edges', WATCH,
              dict(sb='SB_Three', rb='RB_One')),
+            # re-basing of a registry ABOVE the one that is asked, followed by
+            # a mutation of the asked registry itself (three registries)
+            ('chain d5 verify', 'edges', dict(CHAIN, Flavour='"verify"'),
+             dict(sb='SB_One', rb='RB_None3')),
             ('cache-sim', 'sim', dict(CACHE, MaxLive=4, MaxDepth=100),
              dict(sb='SB_Chain2', rb='RB_Two', num=150, depth=30)),
             ('cache-sim verify', 'sim', dict(CACHE, MaxLive=4, MaxDepth=100,
